@@ -5,6 +5,7 @@ import (
 	"fmt"
 	"math"
 	"math/rand"
+	"os"
 	"sort"
 	"strconv"
 	"strings"
@@ -29,7 +30,8 @@ import (
 //   init W=<MaxReorgDepth> batch=<recoveryBatchSize> recw=<n> naddr=<k> gt=<genesis unix time>
 //   blk id=<k> parent=<p> t=<unix> txs=<id>[c],...     declare a block (content only)
 //   ext id=<k> mode=<a|b|f>                            best chain grows by block k (+ notifications if running)
-//   reorg d=<n> br=<k1,k2,...> mode=<a|b|f>            drop d blocks, connect the branch bottom-up
+//   reorg d=<n> br=<k1,k2,...> mode=<a|b|f> [rfin=<k>] drop d blocks, connect the branch bottom-up (rfin: the held rescan's
+//                                                      RescanFinished arrives after the first k block events of this reorg)
 //   stale id=<k>                                       BlockDisconnected for a block that is not on the best chain
 //   dupc | duptx h=<n> | mtx tx=<id>                   repeated BlockConnected(tip) / RelevantTx / unmined tx
 //   raw k=<c|d> id=<k>                                 malformed stream: a notification the backend state does not justify
@@ -477,9 +479,37 @@ func (r *syncRunner) exec1(op string) (string, string) {
 			r.silent = true
 			return r.state(), ""
 		}
+		// rfin=<k>: the held rescan's RescanFinished is delivered after the first k block events of this reorg
+		// (disconnects tip-first, then the connects) — the backend has already switched to the new branch
+		rf, ctx := -1, "ntfn"
+		if x, ok := kv["rfin"]; ok {
+			rf = atoi(x)
+			if !r.env.running || r.inflight == "" || rf > len(dropped)+len(br) {
+				return "bad-op", ""
+			}
+		}
+		events := 0
+		fin := func() bool {
+			if rf != events {
+				return true
+			}
+			ctx = r.inflight
+			if !r.env.fc.finishHeld() {
+				return false
+			}
+			if ctx == "import-rescan" && os.Getenv("VX_NO_SETTLE") == "" {
+				time.Sleep(2 * time.Millisecond)
+			}
+			r.inflight, r.missed = "", false
+			return true
+		}
 		if r.env.running {
 			r.noteRace()
 			for _, b := range dropped {
+				if !fin() {
+					return "deliver-timeout", ""
+				}
+				events++
 				if r.env.w.ChainSynced() {
 					// disconnectBlock returns before notifyDetachedBlock while the wallet is not chain-synced
 					r.sentDisc = append(r.sentDisc, b.hash)
@@ -490,15 +520,22 @@ func (r *syncRunner) exec1(op string) (string, string) {
 				r.noteZero()
 			}
 			for _, b := range br {
+				if !fin() {
+					return "deliver-timeout", ""
+				}
+				events++
 				if !r.connect(b, kv["mode"]) {
 					return "deliver-timeout", ""
 				}
+			}
+			if !fin() {
+				return "deliver-timeout", ""
 			}
 		}
 		if !r.env.running {
 			return r.state(), ""
 		}
-		return r.state(), r.oracle("ntfn")
+		return r.state(), r.oracle(ctx)
 	case "stale":
 		b := r.env.fc.block(atoi(kv["id"]))
 		if b == nil || !r.env.running || !r.connected {
@@ -600,7 +637,7 @@ func (r *syncRunner) exec1(op string) (string, string) {
 		if r.silent {
 			r.replayOff = true
 		}
-		if !r.env.reconnect(1500 * time.Millisecond) {
+		if !r.env.reconnect(3 * time.Second) {
 			if r.col != nil {
 				r.col.stop()
 				r.col = nil
@@ -646,7 +683,9 @@ func (r *syncRunner) exec1(op string) (string, string) {
 			// ErrWalletShuttingDown on the job's error channel, which ImportPrivateKey never drains (it still holds the
 			// rescan RPC's nil) — the goroutine blocks for ever and WaitForShutdown never returns.  Give the hand-over
 			// time to complete before a following `stop` (env.stop has a timeout for the case it still happens).
-			time.Sleep(2 * time.Millisecond)
+			if os.Getenv("VX_NO_SETTLE") == "" { // set to reproduce the hang
+				time.Sleep(2 * time.Millisecond)
+			}
 		}
 		r.inflight, r.missed = "", false
 		if t := r.env.fc.tip().height; t > r.maxTip && ctx == "reconnect" {
@@ -1395,6 +1434,25 @@ func (g *syncGen) windowSteps(n int) {
 	}
 }
 
+// finishRescan closes the window: plain `rfin`, or (1 in 4) RescanFinished lands in the middle of one more reorg —
+// after k of its block events, the backend already being on the new branch.
+func (g *syncGen) finishRescan() {
+	if g.rng.Intn(4) != 0 || len(g.best) < 2 {
+		g.emit("rfin")
+		return
+	}
+	g.reorg(3, func(d int) int { return d + g.rng.Intn(3) - g.rng.Intn(2) })
+	last := g.ops[len(g.ops)-1]
+	kind, kv := core.KV(last)
+	if kind != "reorg" {
+		g.emit("rfin")
+		return
+	}
+	total := atoi(kv["d"]) + len(core.CSV(kv["br"]))
+	g.ops[len(g.ops)-1] = fmt.Sprintf("%s rfin=%d", last, g.rng.Intn(total+1))
+	g.tags["rescan-finished-mid-reorg"] = true
+}
+
 // txBlock extends the best chain by a block that holds at least one wallet transaction.
 func (g *syncGen) txBlock() {
 	t := txSpec{g.nextTx, false}
@@ -1421,7 +1479,7 @@ func (g *syncGen) importRescan(win int, recw int) {
 		g.tags["stop-with-rescan-in-flight"] = true
 		return
 	}
-	g.emit("rfin")
+	g.finishRescan()
 }
 
 // reconnect: the backend connection is re-established on the running wallet.  silent = the connection was down for a
@@ -1466,7 +1524,7 @@ func (g *syncGen) reconnect(silent bool, win int, recw int, race bool) {
 		g.tags["stop-with-rescan-in-flight"] = true
 		return
 	}
-	g.emit("rfin")
+	g.finishRescan()
 }
 
 func (syncEngine) Generate(rng *rand.Rand, tier string) []core.Case {
@@ -1668,8 +1726,14 @@ func (syncEngine) Generate(rng *rand.Rand, tier string) []core.Case {
 		g.reorg(2, func(int) int { return 0 })
 		g.emit("rfin")
 		chain(g, 3)
+		g.txBlock()
 		g.emit("importkey k=2 from=2")
-		g.emit("rfin")
+		g.reorg(2, func(d int) int { return d + 1 })
+		g.ops[len(g.ops)-1] += " rfin=2" // both disconnects, RescanFinished (catchUpHashes from the new branch), the connects
+		g.txBlock()
+		g.emit("reconnect recw=0")
+		g.reorg(2, func(d int) int { return d })
+		g.ops[len(g.ops)-1] += " rfin=1"
 	})
 	nw := n / 3
 	if nw > 40 {
